@@ -94,3 +94,35 @@ Definition typed_on (vs : list bvar) (rho : string -> option value) : Prop :=
     | VBool _ => exists b, rho (var_name v) = Some (VB b)
     | VInt _ _ _ => exists z, rho (var_name v) = Some (VI z)
     end.
+
+(* ---- the Sugar-side notion of a model of the problem read from the text ---- *)
+Definition in_domain (rho : string -> option value) (d : option sdecl) : bool :=
+  match d with
+  | Some (SDBool n) => match rho n with Some (VB _) => true | _ => false end
+  | Some (SDInt n lo hi) => match rho n with Some (VI z) => (lo <=? z)%Z && (z <=? hi)%Z | _ => false end
+  | None => false
+  end.
+Definition is_true (o : option value) : bool := match o with Some (VB true) => true | _ => false end.
+Definition sugar_model (gsem : op -> list (option value) -> option bool) (jp : jproblem)
+           (rho : string -> option value) : bool :=
+  forallb (in_domain rho) (sugar_decls (j_problem jp)) &&
+  forallb (fun x => is_true (sugar_sem gsem rho x)) (sugar_constraints (j_problem jp)).
+
+(* correctness of the external solver on one description, as an hypothesis on
+   what _call_solver returns for it: answer-finder mode *)
+Definition answer_oracle_at (gsem : op -> list (option value) -> option bool) (solver : string -> string)
+           (text : string) : Prop :=
+  forall jp, java_load text = Some jp -> j_keys jp = None ->
+    (exists en, sugar_model gsem jp (name_env en) = true /\
+                java_reply jp (Some (name_env en, fun _ => true)) = Some (solver text)) \/
+    ((forall en, sugar_model gsem jp (name_env en) = false) /\ java_reply jp None = Some (solver text)).
+(* deduction mode: a key stays "not refuted" exactly when every model agrees with the first one on it *)
+Definition deduction_oracle_at (gsem : op -> list (option value) -> option bool) (solver : string -> string)
+           (text : string) : Prop :=
+  forall jp keys, java_load text = Some jp -> j_keys jp = Some keys ->
+    (exists en nr, sugar_model gsem jp (name_env en) = true /\
+        (forall n, In n keys ->
+                   (nr n = true <->
+                    forall en', sugar_model gsem jp (name_env en') = true -> name_env en' n = name_env en n)) /\
+        java_reply jp (Some (name_env en, nr)) = Some (solver text)) \/
+    ((forall en, sugar_model gsem jp (name_env en) = false) /\ java_reply jp None = Some (solver text)).
